@@ -344,8 +344,10 @@ theorem patch_copies_location :
 /-- **Nodes created by rewrites**: every node literal of optimizer/*.go and compiler/patcher.go is either
     handed to `Patch` (and inherits the location of the node it replaces) or sits in a field of another
     new node and is never located.  The unlocated ones, exactly: the `ConstantNode` sets of the in-array
-    rewrite (they cannot fail on their own) and the two comparison nodes of the in-range rewrite (they
-    can: `x >= 1` on a non-number) — see `c13:inrange-rewrite-no-location`. -/
+    rewrite (they cannot fail on their own) and the two comparison nodes of the in-range rewrite.  Those
+    could fail (`x >= 1` on a non-number, reported at 0:0: `c13:inrange-rewrite-no-location`) until fix
+    072d9f0 restricted the rewrite to integer-typed, call-free left operands; they remain unlocated,
+    which is now unobservable. -/
 theorem created_nodes_table :
     Gen.Loc.createdNodes.map (fun c => (c.file, c.node, c.how)) =
       [("optimizer/const_expr.go", "ConstantNode", "patch-var:patch"),
